@@ -546,6 +546,36 @@ def call(I, fr, name, fname, k, args, depth):
     if "__is_feature_detected::" in name:
         feat = name.rsplit("::", 1)[1]
         return int(I.features.get(feat, True)) if hasattr(I, "features") else 1
+    if "sync::atomic::Atomic" in name and name.endswith("::load"):
+        v = deref(I, args[0])
+        if isinstance(v, int):
+            return v
+        raise Unsupported("atomic load of %r" % (v,))
+    if "sync::atomic::Atomic" in name and name.endswith("::store"):
+        r = args[0]
+        if isinstance(r, Ref):
+            r.frame.locals[r.local] = args[1]
+            return []
+        raise Unsupported("atomic store to %r" % (r,))
+    if name.endswith("arch::x86_64::_tzcnt_u64") or name.endswith("arch::x86_64::_mm_tzcnt_64"):
+        a = args[0] & ((1 << 64) - 1)
+        return 64 if a == 0 else (a & -a).bit_length() - 1
+    if name.endswith("vec::Vec::<T, A>::len"):
+        v = deref(I, args[0])
+        if isinstance(v, list):
+            return len(v)
+        if isinstance(v, StrBuf):
+            return len(v.b)
+        raise Unsupported("Vec::len on %r" % (v,))
+    if name.endswith("vec::Vec::<T, A>::is_empty"):
+        v = deref(I, args[0])
+        return int(len(v if isinstance(v, list) else v.b) == 0)
+    if (name.endswith("ops::Deref>::deref") or fname.endswith("ops::Deref::deref")) and isinstance(deref(I, args[0]), list):
+        v = deref(I, args[0])
+        return Slice(v, 0, len(v))
+    if name.endswith("vec::Vec::<T, A>::as_slice"):
+        v = deref(I, args[0])
+        return Slice(v, 0, len(v))
     if name.endswith("string::String::new") or name.endswith("string::String::with_capacity"):
         return StrBuf()
     if name.endswith("string::String::push_str"):
@@ -759,6 +789,18 @@ def call(I, fr, name, fname, k, args, depth):
             return bits if ua == 0 else (ua & -ua).bit_length() - 1
         if meth == "leading_zeros":
             return bits - ua.bit_length()
+        if meth == "ilog2":
+            if ua == 0:
+                raise Panic("ilog2 of zero")
+            return ua.bit_length() - 1
+        if meth == "leading_ones":
+            return bits - ((~ua) & ((1 << bits) - 1)).bit_length()
+        if meth == "rotate_left":
+            r = args[1] % bits
+            return wrap(((ua << r) | (ua >> (bits - r))) & ((1 << bits) - 1), ty)
+        if meth == "rotate_right":
+            r = args[1] % bits
+            return wrap(((ua >> r) | (ua << (bits - r))) & ((1 << bits) - 1), ty)
         if meth == "trailing_ones":
             return call(I, fr, name.replace("trailing_ones", "trailing_zeros"), fname, k, [wrap(~a, ty)], depth)
         if meth == "min":
